@@ -218,33 +218,40 @@ theorem neg_disconnect_leaves_nothing_pending (s : Neg.St) (hd : s.base.dead = f
     (Neg.step s .disconnect).1.base.tbl = [] := by
   simp [Neg.step, run, step, hd, cancelAll]
 
-/-- **Connection loss — partial.** Full statement (false today, see the defect below): "after the loss
-of a session that cannot be resumed — established without stream management, or with
-`<enabled/>` lacking `resume` — nothing is pending".  Proved: it holds whenever the client does not
-*believe* it can resume (`canResume = false`); what is missing is that the belief is always right. -/
-theorem neg_loss_leaves_nothing_pending_partial (s : Neg.St) (hd : s.base.dead = false)
-    (hc : s.canResume = false) : (Neg.step s .loss).1.base.tbl = [] := by
-  simp [Neg.step, run, step, hd, hc, cancelAll]
+/-- **The client's belief "can resume" is what the server granted**: after a session that is not a
+resumption it is true exactly when the new session has stream management with `resume`; in
+particular a session without stream management clears it (repo commit c590ae4; before, the flag of
+an older session survived). -/
+theorem neg_can_resume_is_what_was_granted (s : Neg.St) (sm resumableNew : Bool) :
+    (Neg.step s (.connect sm resumableNew false)).1.canResume = (sm && resumableNew) := by
+  cases sm <;> simp [Neg.step]
+
+/-- **Connection loss of a session that cannot be resumed leaves nothing pending.** For every
+history `pre`, every new session established without stream management or with `<enabled/>`
+lacking `resume`, and every sequence of request-table operations on it: after the loss the table
+is empty (and by `iq_exactly_once_or_pending` every request has then completed exactly once).
+(Before repo commit c590ae4 "fix: requests stay pending after a session without stream management
+although it cannot be resumed" this was false: the old model proved the negation with the witness
+`connect SM resumable; loss; connect without SM; send; loss`, kept first in the harness corpus.) -/
+theorem neg_loss_leaves_nothing_pending (own : String) (pre : List Neg.Op) (sm resumableNew : Bool)
+    (mid : List Op) (h : sm = false ∨ resumableNew = false) :
+    (Neg.run (Neg.init own)
+      (pre ++ [.connect sm resumableNew false] ++ mid.map .base ++ [.loss])).1.base.tbl = [] := by
+  rw [Neg.run_append, Neg.run_append, Neg.run_append]
+  simp only [Neg.run]
+  apply Neg.loss_empties
+  · apply Neg.run_deadEmpty
+    apply Neg.step_deadEmpty
+    apply Neg.run_deadEmpty
+    intro hd; simp [Neg.init, init] at hd
+  · rw [Neg.run_base_canResume, neg_can_resume_is_what_was_granted]
+    rcases h with h | h <;> simp [h]
 
 /-- … and a loss the client believes resumable keeps everything. -/
 theorem neg_resumable_loss_retains (s : Neg.St) (hd : s.base.dead = false)
     (hc : s.canResume = true) :
     (Neg.step s .loss).1.base.tbl = s.base.tbl ∧ (Neg.step s .loss).2 = [] := by
   simp [Neg.step, run, step, hd, hc]
-
-/-- **Defect in today's code: a stale "can resume".** `C2sStreamManager::m_canResume` is set by
-`<enabled resume='true'/>` and cleared only by an orderly close; a later session established
-WITHOUT stream management does not clear it.  When that later session is lost, the client still
-reports `smCanResume = true`, and requests issued on it stay pending although their session cannot
-be resumed (they complete only at the next session start).  Witness: resumable SM session, loss,
-new session on a server without stream management, one request, loss. -/
-theorem C07_defect_stale_resumable_after_nosm_session :
-    ¬ (∀ (own : String) (pre : List Neg.Op) (sends : List (Id × String)),
-        (Neg.run (Neg.init own)
-          (pre ++ [.connect false false false] ++ sends.map (fun p => .base (.send p.1 p.2)) ++ [.loss])).1.base.tbl = []) := by
-  intro h
-  have := h "me@own.org" [.connect true true false, .loss] [(.named "a", "bob@rem.org/r")]
-  exact absurd this (by decide)
 
 /-! ### Archive retrieval (`QXmppMamManager::retrieveMessages`) -/
 
@@ -384,9 +391,11 @@ example : (Neg.run (Neg.init "me@own.org")
 example : (Neg.run (Neg.init "me@own.org")
     [.connect true true false, .base (.send (.named "a") "bob@rem.org/r"), .loss, .connect true true true]).1.base.tbl
     = [⟨.named "a", "bob@rem.org/r", 0⟩] := by decide
--- hypotheses of the partial loss theorem / of the defect: canResume false resp. stale true
-example : (Neg.run (Neg.init "me@own.org") [.connect false false false]).1.canResume = false
-    ∧ (Neg.run (Neg.init "me@own.org") [.connect true true false, .loss, .connect false false false]).1.canResume = true := by decide
+-- the former defect witness: resumable SM session, loss, session without SM, one request, loss
+example : (Neg.run (Neg.init "me@own.org")
+    [.connect true true false, .loss, .connect false false false, .base (.send (.named "a") "bob@rem.org/r"), .loss]).2
+    = [⟨0, .named "a", .cancelled⟩] := by decide
+example : (Neg.run (Neg.init "me@own.org") [.connect true true false, .loss, .connect false false false]).1.canResume = false := by decide
 -- archive retrieval: the former defect witness (empty page, e2ee), a page with a deferred decryption, no e2ee
 example : (Mam.run (Mam.init true false) [.start, .iqResult]).1.answered = true
     ∧ (Mam.run (Mam.init true false) [.start, .iqResult]).1.waiting = []
